@@ -57,7 +57,7 @@ Proof.
   destruct (strip_spec _ _ _ _ _ _ Hg Hq0 H) as [k [Hk [Hc [Hu [Hn' Hnd]]]]].
   split; [lia|]. assert (Hpow : g ^ c = g ^ k * g) by (subst c; replace (0 + 1 + k) with (k + 1) by lia; rewrite Z.pow_add_r by lia; rewrite Z.pow_1_r; reflexivity).
   split; [rewrite Hpow, Hq, Hu; ring|]. split; [|exact Hnd].
-  assert (1 <= g ^ k) by (apply Z.lt_le_pred; apply Z.pow_pos_nonneg; lia). nia.
+  assert (0 < g ^ k) by (apply Z.pow_pos_nonneg; lia). nia.
 Qed.
 
 (* ---------------------------------------------------------------- set(Lf, Lo, n, loops) *)
@@ -230,7 +230,7 @@ Proof.
     + exfalso. apply in_map_iff in Hin. destruct Hin as [[t r] [Hfst Hin]]. cbn [fst] in Hfst. subst t.
       apply (Hnone p r Hin). apply Z.mod_divide; [pose proof (prime_ge_2 _ Hp); lia|exact Hpn].
     + subst d. exact Hpn.
-  - rewrite Hpick. destruct (Htr t r Hint) as [Heq Hpt]. subst r. split; [exact Hpt|].
+  - destruct (Htr t r Hint) as [Heq Hpt]. rewrite Hpick, <- Heq. split; [exact Hpt|].
     apply Z.mod_divide; [pose proof (prime_ge_2 _ Hpt); lia|exact Hm].
 Qed.
 
